@@ -130,6 +130,65 @@ pub fn single_signer(r: &RpResult) -> Vec<(String, String)> {
     v
 }
 
+/// Key identifiers (hex) in every key state of every class of a CA.
+fn own_keys(w: &World, name: &str) -> Option<std::collections::BTreeSet<String>> {
+    fn walk(v: &Value, out: &mut std::collections::BTreeSet<String>) {
+        match v {
+            Value::Object(m) => {
+                for (k, x) in m {
+                    if k == "key_id" {
+                        if let Some(s) = x.as_str() {
+                            out.insert(s.to_ascii_uppercase());
+                        }
+                    }
+                    walk(x, out);
+                }
+            }
+            Value::Array(a) => a.iter().for_each(|x| walk(x, out)),
+            _ => {}
+        }
+    }
+    let v = ca_json(w, name)?;
+    let mut out = std::collections::BTreeSet::new();
+    walk(v.get("resources")?, &mut out);
+    Some(out)
+}
+
+/// "Once the parent confirms revocation the old key's publication point and
+/// certificate disappear" - not before: a CA must not give up a key (and
+/// with it the key's manifest and CRL) while one of its parents still holds
+/// an unrevoked certificate for that key. Judged on the CAs' own state, so
+/// that it can be evaluated between any two steps (what the publication
+/// server holds lags behind while repository synchronisations are queued).
+pub fn abandoned_certified_keys(w: &World, name: &str) -> Vec<(String, String)> {
+    let mut v = Vec::new();
+    let cm = w.krill.ca_manager();
+    let Ok(me) = cm.get_ca(&crate::world::ca(name)) else { return v };
+    let Some(mine) = own_keys(w, name) else { return v };
+    for p in me.parents() {
+        if p.as_str() == "ta" {
+            continue;
+        }
+        let Ok(pca) = cm.get_ca(&crate::world::ca(p.as_str())) else { continue };
+        let Ok(list) = pca.list(&crate::world::child_h(name), &w.config.issuance_timing) else { continue };
+        for class in list.classes() {
+            for issued in class.issued_certs() {
+                let ki = issued.cert().subject_key_identifier().to_string().to_ascii_uppercase();
+                if !mine.contains(&ki) {
+                    v.push((
+                        "key-dropped-before-revocation".into(),
+                        format!(
+                            "{p} still holds an unrevoked certificate (class {}) for key {} of {name}, but {name} no longer has that key: its manifest and CRL are withdrawn while the certificate stays published",
+                            class.class_name(), &ki[..8]
+                        ),
+                    ));
+                }
+            }
+        }
+    }
+    v
+}
+
 #[derive(Clone)]
 pub struct C04Model {
     pub inner: C01Model,
@@ -155,7 +214,14 @@ impl Model for C04Model {
                 Op::Roa { ca: c(), add: vec![c01::ROA_A.into()], del: vec![] },
                 Op::Restart,
             ];
-            if self.roller == "ca" {
+            if self.roller == "ca" && self.inner.two_parents {
+                // one exchange with one parent at a time
+                ops.extend([
+                    Op::SyncParent { ca: c(), parent: p() },
+                    Op::SyncParent { ca: c(), parent: "parent2".into() },
+                    Op::Entitle { parent: "parent2".into(), child: c(), res: r3("AS65000", "10.0.0.0/17", "") },
+                ]);
+            } else if self.roller == "ca" {
                 ops.extend([
                     Op::Entitle { parent: p(), child: c(), res: r3("AS65000-AS65001", "10.0.0.0/16", "") },
                     Op::Entitle { parent: c(), child: "gc".into(), res: r3("AS65001", "10.0.0.0/25", "") },
@@ -238,6 +304,7 @@ impl Model for C04Model {
             }
         }
         v.extend(single_signer(&r));
+        v.extend(abandoned_certified_keys(w, &self.roller));
         for p in c01::compare_payloads(&r, &self.inner.intent) {
             // duplicates / extras are safety; completeness is checked after
             // the continuation below
@@ -364,6 +431,27 @@ pub fn run(tier: &Tier, args: &[String]) -> i32 {
         name: "roll-ca-raw-steps".into(),
         build: Box::new(|| c01::build_w3(c01::world_cfg(2, 2))),
         model: mk_raw("ca", "parent"),
+    });
+    // two resource classes, built in the middle of the roll (both new keys
+    // certified), every exchange with either parent an operation of its own
+    configs.push(Config {
+        name: "roll-ca-two-classes-raw-midroll".into(),
+        build: Box::new(|| {
+            let mut w = c01::build_w3_two_parents(c01::world_cfg(2, 2))?;
+            let o = w.apply_pumped(&Op::RollInit { ca: "ca".into() });
+            if !o.ok {
+                return Err(format!("RollInit failed: {:?}", o.err));
+            }
+            w.settle()?;
+            Ok(w)
+        }),
+        model: C04Model {
+            inner: C01Model { intent: Intent::default(), full_alphabet: false, two_parents: true },
+            roller: "ca".into(),
+            roller_parent: "parent".into(),
+            stepwise: false,
+            raw: true,
+        },
     });
     if tier.thorough {
         configs.push(Config {
